@@ -7,6 +7,8 @@ import MesonModel.Cargo.SemverLemmas
 import MesonModel.Cargo.CfgLemmas
 import MesonModel.Cargo.BridgeLemmas
 import MesonModel.Cargo.LexLemmas
+import MesonModel.Cargo.CacheLemmas
+import MesonModel.Generated.CargoCache
 
 namespace MesonModel.Props.C20
 open MesonModel.Cargo MesonModel.Cargo.Spec
@@ -360,5 +362,62 @@ theorem lexer_examples :
       renderTokens (.all [.equal "target_arch".toList "x86".toList, .ident "unix".toList]) ∧
     (lexer "not( any( a ,b ) )".toList).toks = renderTokens (.not (.any [.ident ['a'], .ident ['b']])) := by
   decide
+
+/-! ## Consumer objects: `manifest.Dependency` and its cached predicate -/
+
+section Cache
+open MesonModel.Cargo.Cache
+
+/-- For every history of reading the lazy attributes and calling `update_version` on one
+dependency object, every cached value was computed from the *current* requirement — provided
+`update_version` has one `try` block per version-dependent lazy attribute (the table obligation). -/
+theorem cache_coherent (blocks : List (List String)) (attrs : List String)
+    (hok : blocksOk blocks attrs = true) (req : List Char) (ops : List Cache.Op) (how : OpsWithin attrs ops) :
+    Coherent (run blocks (fresh req) ops) :=
+  (run_invariant blocks attrs hok ops how (fresh req) (by intro e he; simp [fresh] at he)
+    (by intro e he; simp [fresh] at he)).1
+
+/-- …hence after any history `dep.accepts_version(v)` is the matcher of the current requirement
+and `dep.api` is the api of the current requirement. -/
+theorem reads_follow_current_requirement (blocks : List (List String)) (attrs : List String)
+    (hok : blocksOk blocks attrs = true) (ha : "accepts_version" ∈ attrs) (hp : "api" ∈ attrs)
+    (req : List Char) (ops : List Cache.Op) (how : OpsWithin attrs ops) (ver : List Char) :
+    acceptsOut (run blocks (fresh req) ops) ver = cargoParse (run blocks (fresh req) ops).version ver ∧
+    apiOut (run blocks (fresh req) ops) = api (run blocks (fresh req) ops).version := by
+  have h := run_invariant blocks attrs hok ops how (fresh req) (by intro e he; simp [fresh] at he)
+    (by intro e he; simp [fresh] at he)
+  have h1 := (read_preserves attrs _ "accepts_version" ha h.1 h.2).2.2
+  have h2 := (read_preserves attrs _ "api" hp h.1 h.2).2.2
+  simp [acceptsOut, apiOut, h1, h2]
+
+/-- the table obligation, re-checked on every run against the block structure and the lazy
+attributes harvested from the current source of `manifest.Dependency` -/
+theorem dependency_cache_table_ok :
+    blocksOk MesonModel.Generated.CargoCache.updateBlocks MesonModel.Generated.CargoCache.lazyAttrs = true := by
+  decide
+
+/-- the code as it is: all histories -/
+theorem dependency_reads_current (req : List Char) (ops : List Cache.Op)
+    (how : OpsWithin MesonModel.Generated.CargoCache.lazyAttrs ops) (ver : List Char) :
+    acceptsOut (run MesonModel.Generated.CargoCache.updateBlocks (fresh req) ops) ver =
+      cargoParse (run MesonModel.Generated.CargoCache.updateBlocks (fresh req) ops).version ver :=
+  (reads_follow_current_requirement _ _ dependency_cache_table_ok (by decide) (by decide) req ops how ver).1
+
+/-- `update_version` installs the new requirement -/
+theorem update_sets_version (blocks : List (List String)) (o : Obj) (v : List Char) :
+    (update blocks o v).version = v := update_version blocks o v
+
+/-- The variant with both `delattr`s in ONE `try` block is refuted: when `api` was never read, the
+`AttributeError` of its `delattr` skips dropping the cached predicate, and after
+`update_version('=1.2.3')` on a dependency declared `1.0` the object still accepts 1.5.0. -/
+theorem merged_try_refuted :
+    let o := run [["api", "accepts_version"]] (fresh "1.0".toList)
+      [.read "accepts_version", .update "=1.2.3".toList]
+    o.version = "=1.2.3".toList ∧ acceptsOut o "1.5.0".toList = true ∧
+      cargoParse o.version "1.5.0".toList = false ∧
+      blocksOk [["api", "accepts_version"]] ["accepts_version", "api"] = false := by
+  decide
+
+end Cache
 
 end MesonModel.Props.C20
